@@ -244,7 +244,7 @@ fn delay_us(t: Tier) -> &'static [u64] {
 	t.pick(&[2000][..], &[500, 2000, 3300][..])
 }
 const NONE: usize = usize::MAX;
-const SCENES: [&str; 13] = ["sound", "delayed-start", "clock", "tween", "delay", "filter", "eq", "delay, rate changed and changed back", "reverb early reflections", "delay in the feedback loop of a one-frame delay", "lfo", "streaming sound", "long delayed start"];
+const SCENES: [&str; 14] = ["sound", "delayed-start", "clock", "tween", "delay", "filter", "eq", "delay, rate changed and changed back", "reverb early reflections", "delay in the feedback loop of a one-frame delay", "lfo", "streaming sound", "long delayed start", "compressor attack time"];
 const LFO_HZ: [f64; 3] = [3.0, 113.0, 1130.0];
 const LFO_WAVES: [&str; 4] = ["sine", "triangle", "saw", "pulse(0.5)"];
 const PLACEMENTS: [&str; 4] = ["main", "sub", "nested", "send"];
@@ -349,7 +349,7 @@ impl Check for C16 {
 		}
 	}
 	fn rule(&self) -> String {
-		"A: 13 scenes (incl. a 200 ms delayed start at constant rates, the sound scene with a streaming sound, a delay whose rate changes and changes back, the reverb's early reflections, a delay nested in the feedback loop of a one-frame delay, and LFOs of 3 / 113 / 1130 Hz x 4 waveforms read through a track volume) x r1 x r2 x change moment {never, before callback 0..4} x internal buffer x {sound rate | delay time x placement main/sub/nested/send}; times in true seconds = sum of frames / device rate in force (the harness plays the backend and knows it; the dt handed to process is checked against it); tolerances: one device frame (+ one processing chunk where kira quantises to chunks: clock start, delayed start, tween); filter/EQ corner gain compared with the 48 kHz rendering. B: all histories <= depth over {callback, change rate, drop the parents' handles, 7 track-creation paths each with probe effect + 2 ms delay carrying a probe as feedback effect}, epilogue adopts and measures every track; oracle: on every process call the rate last told == device rate in force == 1/dt, echo time == delay_time +- 1 frame. C: E2 schedules of add-track || change+callback. states = distinct (rate, per-track adopted/told) model states; non-trivial = grid runs in which the measured event was observed / histories with at least one added track whose probe was processed".into()
+		"A: 14 scenes (incl. a compressor's attack time measured in seconds, a 200 ms delayed start at constant rates, the sound scene with a streaming sound, a delay whose rate changes and changes back, the reverb's early reflections, a delay nested in the feedback loop of a one-frame delay, and LFOs of 3 / 113 / 1130 Hz x 4 waveforms read through a track volume) x r1 x r2 x change moment {never, before callback 0..4} x internal buffer x {sound rate | delay time x placement main/sub/nested/send}; times in true seconds = sum of frames / device rate in force (the harness plays the backend and knows it; the dt handed to process is checked against it); tolerances: one device frame (+ one processing chunk where kira quantises to chunks: clock start, delayed start, tween); filter/EQ corner gain compared with the 48 kHz rendering. B: all histories <= depth over {callback, change rate, drop the parents' handles, 7 track-creation paths each with probe effect + 2 ms delay carrying a probe as feedback effect}, epilogue adopts and measures every track; oracle: on every process call the rate last told == device rate in force == 1/dt, echo time == delay_time +- 1 frame. C: E2 schedules of add-track || change+callback. states = distinct (rate, per-track adopted/told) model states; non-trivial = grid runs in which the measured event was observed / histories with at least one added track whose probe was processed".into()
 	}
 	fn assumptions(&self) -> Vec<String> {
 		vec![
@@ -475,6 +475,7 @@ fn grid_case(t: Tier, scene: usize, r1: u32, ctx: &mut Ctx) {
 					let r = catch(|| match scene {
 						0 => scene_sound(&p, a as u32, false, &mut fails),
 						11 => scene_sound(&p, a as u32, true, &mut fails),
+						13 => scene_compressor(&p, &mut fails),
 						12 => {
 							if p.k != NONE {
 								Ok((false, 0))
@@ -675,6 +676,49 @@ fn scene_start(p: &Plan, clock: bool, fails: &mut Vec<(String, String)>) -> Scen
 	}
 	drop(h);
 	Ok((seen, hash64(&oh)))
+}
+
+/// a compressor (threshold -40 dB, ratio 4, attack 5 ms) on a sub-track; a DC step of -6 dBFS arrives after every rate change
+/// is over: the gain reduction covers 1 - 1/e of its way after the attack time, in seconds
+fn scene_compressor(p: &Plan, fails: &mut Vec<(String, String)>) -> SceneObs {
+	use kira::effect::compressor::CompressorBuilder;
+	let ncb = NCB_FX;
+	let mut w = world(p.r1, p.ibs, log_cap(p, ncb), None);
+	let mut t = w.m
+		.add_sub_track(TrackBuilder::new().with_effect(CompressorBuilder::new().threshold(-40.0).ratio(4.0).attack_duration(Duration::from_millis(5)).release_duration(Duration::from_millis(5))))
+		.map_err(|_| "resource limit".to_string())?;
+	warm(&mut w)?;
+	let mut h = None;
+	let starts = drive(&mut w, p, ncb, &mut |_w, j| {
+		if j == 8 {
+			h = t.play(dc_sound(30)).ok();
+		}
+	})?;
+	let rec = w.rec();
+	tap_verdict(&w, p, fails);
+	let (a, b) = (starts[8], starts[12]);
+	let rate = if p.k == NONE { p.r1 } else { p.r2 };
+	// level at which the envelope has covered 1 - 1/e of the 34 dB over the threshold: 0.5 x 10^(-34 x 0.75 x 0.632 / 20)
+	let over = 20.0 * 0.5f64.log10() + 40.0;
+	let l_star = 0.5 * 10f64.powf(-over * 0.75 * (1.0 - (-1.0f64).exp()) / 20.0);
+	let Some(on) = (a..b).find(|i| rec.v[*i] > 0.25) else {
+		fails.push((format!("compressor: the step is not heard :: {}", p.phase()), String::new()));
+		return Ok((false, 0));
+	};
+	let Some(hit) = (on..b).find(|i| (rec.v[*i] as f64) <= l_star) else {
+		fails.push((format!("compressor: attack time in seconds != attack_duration :: {}", p.phase()), format!("the output never falls to {:.4} within 10 ms of the step (attack 5 ms) at {} Hz", l_star, rate)));
+		return Ok((true, 1));
+	};
+	let got = rec.t[hit] - rec.t[on];
+	let tol = 3.0 / rate as f64 + 0.05 * 0.005;
+	if (got - 0.005).abs() > tol {
+		fails.push((
+			format!("compressor: attack time in seconds != attack_duration :: {}", p.phase()),
+			format!("after a -6 dBFS step the gain reduction covers 1 - 1/e of its way in {:.6} s at {} Hz ({:.1} frames), attack_duration 0.005 s +- {:.6}", got, rate, got * rate as f64, tol),
+		));
+	}
+	drop(h);
+	Ok((true, hash64(&q(got - 0.005, 1.0 / rate as f64))))
 }
 
 /// StartTime::Delayed(200 ms) at a constant device rate: 80 callbacks of 2.5 ms count the delay down in hundreds of short
